@@ -71,7 +71,7 @@ def _component():
 def _output():
     return st.integers(1, 2).flatmap(lambda size: st.fixed_dictionaries({
         "size": st.just(size),
-        "over": st.one_of(st.none(), st.none(), st.none(), st.integers(0, 5)),
+        "over": st.one_of(st.none(), st.none(), st.none(), st.none(), st.integers(0, 5), st.integers(0, 2).map(lambda k: ["in", k])),
         "letter": st.integers(0, len(LETTERS) - 1),
         "comps": st.lists(_component(), min_size=size, max_size=size),
     }))
@@ -84,6 +84,7 @@ def _leaf():
         "outs": st.lists(_output(), min_size=1, max_size=2),
         "jac": st.sampled_from(["dense", "dense", "sparse", "operator"]),
         "fill": st.sampled_from(["requested", "all"]),
+        "linear": st.sampled_from([False, False, True]),
     })
 
 
@@ -106,11 +107,11 @@ def compositions(draw):
     n_ext = draw(st.sampled_from([1, 1, 2])) if top == "additive" else draw(st.integers(1, 3))
     ops = draw(st.lists(st.one_of(
         st.fixed_dictionaries({"op": st.just("lin"), "ins": st.lists(st.integers(0, 5), min_size=1, max_size=3),
-                               "outs": st.lists(st.integers(0, 7), min_size=1, max_size=3), "pt": st.integers(0, 1)}),
+                               "outs": st.lists(st.integers(0, 7), min_size=1, max_size=3), "pt": st.sampled_from([0, 0, 1, 2])}),
         st.fixed_dictionaries({"op": st.just("lin"), "ins": st.lists(st.integers(0, 5), min_size=1, max_size=2),
-                               "outs": st.lists(st.integers(0, 7), min_size=1, max_size=2), "pt": st.integers(0, 1)}),
-        st.fixed_dictionaries({"op": st.just("all"), "pt": st.integers(0, 1)}),
-        st.fixed_dictionaries({"op": st.just("exec"), "pt": st.integers(0, 1)}),
+                               "outs": st.lists(st.integers(0, 7), min_size=1, max_size=2), "pt": st.sampled_from([0, 0, 1, 2])}),
+        st.fixed_dictionaries({"op": st.just("all"), "pt": st.sampled_from([0, 0, 1, 2])}),
+        st.fixed_dictionaries({"op": st.just("exec"), "pt": st.sampled_from([0, 0, 1, 2])}),
     ), min_size=1, max_size=4))
     return {
         "top": top,
@@ -162,7 +163,9 @@ class Built:
                 size = int(o["size"])
                 name = None
                 if allow_over and o.get("over") is not None:
-                    cand = visible[int(o["over"]) % len(visible)]
+                    over = o["over"]
+                    # ["in", k]: update one of the leaf's own inputs in place; k: overwrite any visible variable
+                    cand = ins[int(over[1]) % len(ins)] if isinstance(over, list) else visible[int(over) % len(visible)]
                     if self.sizes[cand] == size and cand not in outs and cand != self.sum_name:
                         name = cand
                         self.overwrites += 1
@@ -174,7 +177,7 @@ class Built:
                     tl = []
                     for t in comp:
                         factors = []
-                        for pos, c in t[1:]:
+                        for pos, c in (t[1:2] if node.get("linear") else t[1:]):
                             pos = int(pos) % len(ins)
                             factors.append([pos, int(c) % self.sizes[ins[pos]]])
                         tl.append([float(t[0]), *factors])
@@ -191,8 +194,9 @@ class Built:
                 r = self._resolve(c, local, allow_over)
                 children.append(r)
                 for name in written_names(r):
-                    if name not in local:
-                        local.append(name)
+                    if name in local:
+                        local.remove(name)  # an overwritten variable becomes the most recent one
+                    local.append(name)
         else:
             taken: set[str] = set()
             for c in node["c"]:
@@ -372,6 +376,9 @@ def case_chain_rule(p, ctx):
     if built.top == "tree" and stale_point_member(built.tree, set()) and \
             ctx.known("chain_member_reads_a_variable_it_overwrites_nonlinearly"):
         return  # MDOChain linearises such a member at the overwritten value
+    if built.top == "tree" and contaminated_accumulation(built.tree) and \
+            ctx.known("inplace_variable_composed_after_a_sibling_output"):
+        return  # C09-F8
     process = build_process(built)
     residual_name = getattr(process, "NORMALIZED_RESIDUAL_NORM", None)
     in_names = sorted(process.io.input_grammar)
@@ -393,6 +400,11 @@ def case_chain_rule(p, ctx):
                 k += 1
             pt[u] = arr
         points.append(pt)
+    # one more point: the first one with only the last external variable moved (members that do not depend on it
+    # answer from their caches)
+    moved = {u: v.copy() for u, v in points[0].items()}
+    moved[built.ext[-1]] = moved[built.ext[-1]] + 1.0
+    points.append(moved)
     refs = [ref_forward(built, pt) for pt in points]
     rtol = 1e-8 if built.top == "mda" else 1e-10  # tolerance: rtol * (1 + max|J_ref|)
 
@@ -528,6 +540,30 @@ def stale_point_member(node, written: set[str]) -> bool:
     return False
 
 
+def contaminated_accumulation(node) -> bool:
+    """MDOChain member with a variable v it reads and writes plus another output w handled before v, both read downstream.
+
+    reverse_chain_rule walks the member's outputs in sorted order; composing w first adds d./dw * dw/dv to the entry
+    d./dv, which is then (wrongly) used as the derivative w.r.t. the *new* v when v's turn comes.
+    """
+    if node["k"] == "leaf":
+        return False
+    if node["k"] == "chain":
+        for i, c in enumerate(node["c"]):
+            reads: list[str] = []
+            read_before_write(c, set(), reads)
+            outs = written_names(c)
+            both = set(reads) & set(outs)
+            later_reads: list[str] = []
+            for later in node["c"][i + 1:]:
+                read_before_write(later, set(), later_reads)
+            for v in both:
+                for w in outs:
+                    if w != v and (w < v or w in both) and v in later_reads and w in later_reads:
+                        return True
+    return any(contaminated_accumulation(c) for c in node["c"])
+
+
 def coupling_on_a_path(built: Built, d_in, d_out) -> bool:
     """Is there a discipline-to-discipline edge between a discipline reached from a requested input and one reaching a requested output."""
     from vlib.gen.graphs import closure
@@ -577,4 +613,4 @@ ORACLES = {"chain_rule": case_chain_rule}
 
 
 def run(ctx):
-    ctx.drive("chain_rule", compositions(), case_chain_rule, quick=700, thorough=4000)
+    ctx.drive("chain_rule", compositions(), case_chain_rule, quick=500, thorough=3000)
